@@ -55,6 +55,8 @@ type Body struct {
 	Kids []*gen.SNode
 	Data []*gen.DNode
 	Id   string
+	// ListSep, when set, separates the elements of a leaf-list inside the one text a leaf holds
+	ListSep string
 }
 
 func NewBody(rec *Recorder, kids []*gen.SNode, data []*gen.DNode, id string) *Body {
@@ -155,7 +157,7 @@ func (b *Body) Child(r node.ChildRequest) (node.Node, error) {
 		case r.New:
 			d.Rows = nil
 			d.Present = true
-			return &List{Rec: b.Rec, S: s, D: d, Id: b.Id + "/" + name}, nil
+			return &List{Rec: b.Rec, S: s, D: d, Id: b.Id + "/" + name, ListSep: b.ListSep}, nil
 		case r.Delete:
 			d.Rows = nil
 			d.Present = false
@@ -167,7 +169,7 @@ func (b *Body) Child(r node.ChildRequest) (node.Node, error) {
 		if len(d.Rows) == 0 {
 			return nil, nil
 		}
-		return &List{Rec: b.Rec, S: s, D: d, Id: b.Id + "/" + name}, nil
+		return &List{Rec: b.Rec, S: s, D: d, Id: b.Id + "/" + name, ListSep: b.ListSep}, nil
 	}
 	switch {
 	case r.New:
@@ -181,7 +183,7 @@ func (b *Body) Child(r node.ChildRequest) (node.Node, error) {
 	if !d.Present {
 		return nil, nil
 	}
-	return &Body{Rec: b.Rec, Kids: s.Kids, Data: d.Kids, Id: b.Id + "/" + name}, nil
+	return &Body{Rec: b.Rec, Kids: s.Kids, Data: d.Kids, Id: b.Id + "/" + name, ListSep: b.ListSep}, nil
 }
 
 func (b *Body) Field(r node.FieldRequest, hnd *node.ValueHandle) error {
@@ -203,6 +205,13 @@ func (b *Body) Field(r node.FieldRequest, hnd *node.ValueHandle) error {
 	if r.Write {
 		if r.Clear || hnd.Val == nil {
 			d.Leaf = nil
+		} else if l, isList := hnd.Val.(val.Listable); isList && b.ListSep != "" {
+			var parts []string
+			for i := 0; i < l.Len(); i++ {
+				parts = append(parts, l.Item(i).String())
+			}
+			s := strings.Join(parts, b.ListSep)
+			d.Leaf = &s
 		} else {
 			s := hnd.Val.String()
 			d.Leaf = &s
@@ -210,7 +219,11 @@ func (b *Body) Field(r node.FieldRequest, hnd *node.ValueHandle) error {
 		return nil
 	}
 	if d.Leaf != nil {
-		v, err := node.NewValue(r.Meta.Type(), *d.Leaf)
+		var raw interface{} = *d.Leaf
+		if _, isLL := r.Meta.(*meta.LeafList); isLL && b.ListSep != "" {
+			raw = strings.Split(*d.Leaf, b.ListSep)
+		}
+		v, err := node.NewValue(r.Meta.Type(), raw)
 		if err != nil {
 			return err
 		}
@@ -226,7 +239,7 @@ func (b *Body) Next(r node.ListRequest) (node.Node, []val.Value, error) {
 	if s == nil || s.Kind != "list" {
 		return nil, nil, fmt.Errorf("refstore: Next on a container %s", b.Id)
 	}
-	return (&List{Rec: b.Rec, S: s, D: d, Id: b.Id + "/" + s.Name}).Next(r)
+	return (&List{Rec: b.Rec, S: s, D: d, Id: b.Id + "/" + s.Name, ListSep: b.ListSep}).Next(r)
 }
 
 func (b *Body) Choose(sel *node.Selection, choice *meta.Choice) (*meta.ChoiceCase, error) {
@@ -268,10 +281,11 @@ func (b *Body) Release(sel *node.Selection)                              {}
 
 // List is the node.Node of a list (not inside an entry).
 type List struct {
-	Rec *Recorder
-	S   *gen.SNode
-	D   *gen.DNode
-	Id  string
+	Rec     *Recorder
+	S       *gen.SNode
+	D       *gen.DNode
+	Id      string
+	ListSep string
 }
 
 func keyTexts(key []val.Value) []string {
@@ -328,7 +342,7 @@ func (l *List) Next(r node.ListRequest) (node.Node, []val.Value, error) {
 		return nil, nil, err
 	}
 	entry := func(row *gen.DRow) node.Node {
-		return &Body{Rec: l.Rec, Kids: l.S.Kids, Data: row.Kids, Id: l.Id + "=" + strings.Join(row.Key, ",")}
+		return &Body{Rec: l.Rec, Kids: l.S.Kids, Data: row.Kids, Id: l.Id + "=" + strings.Join(row.Key, ","), ListSep: l.ListSep}
 	}
 	switch {
 	case r.New:
